@@ -19,6 +19,13 @@ def source(i, deps, kind):
     n = NAMES[i]
     imports = " ".join("(g %s)" % NAMES[j] for j in deps)
     imp = "(import %s) " % imports if imports else ""
+    style = (i + len(deps) + sum(deps)) % 3
+    if style == 1 and deps:
+        # one import declaration per dependency
+        imp = "".join("(import (g %s)) " % NAMES[j] for j in deps)
+    elif style == 2:
+        # a leading declaration that completes before the ones holding the edges of the graph
+        imp = "(import (scheme base)) " + "".join("(import (g %s)) " % NAMES[j] for j in deps)
     name = "(g zzz)" if kind == "wrongname" else "(g %s)" % n
     body = "(define v%s no-such-variable-%s)" % (n, n) if kind == "faulting" else "(define v%s %d)" % (n, 10 + i)
     text = "(define-library %s %s(export v%s) (begin %s))" % (name, imp, n, body)
